@@ -49,11 +49,12 @@ var opNames = []string{"SetDiscontinuity", "SetRandomAccess", "SetElementaryStre
 	"SetAdaptationFieldExtension", "SetAdaptationField"}
 
 type op struct {
-	kind int
-	flag bool
-	val  uint64
-	data []byte
-	src  *ref.TSPacket
+	kind   int
+	flag   bool
+	val    uint64
+	data   []byte
+	src    *ref.TSPacket
+	srcPkt *packet.Packet // when set: the live packet of the other history is the source
 }
 
 func (o op) String() string {
@@ -231,9 +232,13 @@ func (x *runner) apply(o op) {
 	case opSetAF:
 		next.AF = o.src.AF.Clone()
 		sp := packet.Packet(o.src.Bytes())
-		snap := sp
-		got = x.p.SetAdaptationField((*packet.AdaptationField)(&sp))
-		if sp != snap {
+		srcp := &sp
+		if o.srcPkt != nil {
+			srcp = o.srcPkt
+		}
+		snap := *srcp
+		got = x.p.SetAdaptationField((*packet.AdaptationField)(srcp))
+		if *srcp != snap {
 			x.fail("setaf:source-modified", "SetAdaptationField modified the source adaptation field", nil)
 			return
 		}
@@ -609,6 +614,30 @@ func run(c *mon.Ctx) {
 			x.apply(randomOp(r, &x.m))
 		}
 		x.finish()
+	})
+	// two packets edited in turns (nothing may carry over from one packet to the other), sometimes copying
+	// the adaptation field of the one into the other
+	c.Stream("interleaved", c.N(8000, 5000000), func(i int, r *gen.Rand) {
+		x, y := newRunner(c, initialState(r)), newRunner(c, initialState(r))
+		n := 2 + r.Intn(30)
+		for k := 0; k < n && !x.dead && !y.dead; k++ {
+			a, b := x, y
+			if r.Bool() {
+				a, b = y, x
+			}
+			o := randomOp(r, &a.m)
+			if o.kind == opSetAF && r.Bool() {
+				src := b.m.Clone()
+				o.src, o.srcPkt = &src, &b.p
+			}
+			a.apply(o)
+			if !a.dead && b.p != packet.Packet(b.m.Bytes()) {
+				b.fail("interleaved:other-packet-changed", "an operation on one packet changed another packet", nil)
+			}
+		}
+		c.Count("interleaved.histories")
+		x.finish()
+		y.finish()
 	})
 	depth := c.N(3, 5)
 	total := 1
